@@ -9,6 +9,7 @@
 
   Code anchors (sarpy/geometry/geocoords.py):
     cA … cEB2            lines 12-22   module constants _A, _F, _B, _A2, _B2, _E2, _E4, _OME2, _EB2
+    heikF … heikR0       lines 70-76   intermediates of the closed-form inverse, one definition per line
     ecfToGeodeticLL      lines 57-91   closed-form inverse (validity test, intermediates, lon/lat/alt)
     ecfToGeodetic        lines 81-92   … with the `ordering` index permutation
     geodeticToEcfLL      lines 125-130 forward map
@@ -126,24 +127,44 @@ def ecfValid (v : V3 α) : Bool :=
   let r := sqrt (v.x * v.x + v.y * v.y)
   lt ((cA2 - cB2) * (cA2 - cB2)) ((cA * r) * (cA * r) + (cB * v.z) * (cB * v.z))
 
+/-! lines 70-76, the intermediates of Heikkinen's closed form as functions of `r = sqrt(x² + y²)` and `z`
+    (same operations in the same order as the Python text; split into stages so that `Props/C12Inv.lean` can
+    reason about them one at a time) -/
+
+/-- line 70: `F = 54.0*_B2*z*z` -/
+def heikF (z : α) : α := ofNat 54 * cB2 * z * z
+/-- line 71: `G = r*r + _OME2*z*z - _E2*(_A2 - _B2)` -/
+def heikG (r z : α) : α := r * r + cOME2 * z * z - cE2 * (cA2 - cB2)
+/-- line 72: `C = _E4*F*r*r/(G*G*G)` -/
+def heikC (r z : α) : α := cE4 * heikF z * r * r / (heikG r z * heikG r z * heikG r z)
+/-- line 73: `S = (1.0 + C + numpy.sqrt(C*C + 2*C))**(1./3)` -/
+def heikS (r z : α) : α :=
+  let C := heikC r z
+  pow (ofNat 1 + C + sqrt (C * C + ofNat 2 * C)) (ofNat 1 / ofNat 3)
+/-- line 74: `P = F/(3.0*(G*(S + 1.0/S + 1.0))**2)` -/
+def heikP (r z : α) : α :=
+  let S := heikS r z
+  let t := heikG r z * (S + ofNat 1 / S + ofNat 1)
+  heikF z / (ofNat 3 * (t * t))
+/-- line 75: `Q = numpy.sqrt(1.0 + 2.0*_E4*P)` -/
+def heikQ (r z : α) : α := sqrt (ofNat 1 + ofNat 2 * cE4 * heikP r z)
+/-- line 76: `R0 = -P*_E2*r/(1.0 + Q) + numpy.sqrt(numpy.abs(0.5*_A2*(1.0 + 1/Q) - P*_OME2*z*z/(Q*(1.0 + Q)) - 0.5*P*r*r))` -/
+def heikR0 (r z : α) : α :=
+  let one : α := ofNat 1
+  let half : α := ofNat 1 / ofNat 2
+  let P := heikP r z
+  let Q := heikQ r z
+  (-P) * cE2 * r / (one + Q)
+    + sqrt (abs (half * cA2 * (one + one / Q) - P * cOME2 * z * z / (Q * (one + Q)) - half * P * r * r))
+
 /-- lines 57-91 for one valid point: `(lat, lon, alt)`, degrees / metres -/
 def ecfToGeodeticLL (v : V3 α) : V3 α :=
   let x := v.x
   let y := v.y
   let z := v.z
   let one : α := ofNat 1
-  let two : α := ofNat 2
-  let half : α := ofNat 1 / ofNat 2
   let r := sqrt (x * x + y * y)
-  let F := ofNat 54 * cB2 * z * z
-  let G := r * r + cOME2 * z * z - cE2 * (cA2 - cB2)
-  let C := cE4 * F * r * r / (G * G * G)
-  let S := pow (one + C + sqrt (C * C + two * C)) (ofNat 1 / ofNat 3)
-  let t := G * (S + one / S + one)
-  let P := F / (ofNat 3 * (t * t))
-  let Q := sqrt (one + two * cE4 * P)
-  let R0 := (-P) * cE2 * r / (one + Q)
-              + sqrt (abs (half * cA2 * (one + one / Q) - P * cOME2 * z * z / (Q * (one + Q)) - half * P * r * r))
+  let R0 := heikR0 r z
   let T := r - cE2 * R0
   let U := sqrt (T * T + z * z)
   let V := sqrt (T * T + cOME2 * z * z)
